@@ -20,7 +20,7 @@ common.install(
     mutant_pool=lambda: common.corpus_entries("cleanup"),
     template=templates.cleanup_program,
     mix=(4, 10, 6),
-    budgets=(3200, 64000),
+    budgets=(3200, 32000),
     decl="noauto",
     level_text="Exploration: generated programs aimed at cleanup's implication reasoning are optimised with cleanup only and compared with the source under clingo on generated instances (whole vocabulary, costs, counts).",
 )
